@@ -99,8 +99,51 @@ def run(rep, tier):
     rep.extra["error_sites"] = nsites
     rep.extra["selfcheck_cells_compared_with_duckdb"] = cells
     _output_representation(rep, tier)
+    _engine_b(rep, tier)
     rep.extra["rule"] = ("one obligation = one (script template, runtime-error site): z3 decides whether a load-valid input reaches the site (unsat = unreachable within the bound); a reachable "
                          "site holds iff the real run() on the witness raises a VTLEngineException with a catalogued code; non-trivial = the template has such a site")
+
+
+# ------------------------------------------------------------------------------------------ macro availability (CrossHair)
+def _engine_b(rep, tier):
+    """a macro that is used on the connection has been installed before (otherwise: raw CatalogException)"""
+    from vt.ch import runner
+    build = os.path.join(runner.VERIF, "build", "ch")
+    os.makedirs(build, exist_ok=True)
+    src = ['"""generated by vt/props/C32.py"""\nfrom vt.ch import h_c32 as H\nimport os\nH.warm(full=True)\n\n']
+    specs = []
+    U = len(__import__("vt.ch.h_c32", fromlist=["MACROS"]).MACROS)
+    # one condition per output format (and per rop): the remaining flags are symbolic
+    for fmt in range(4):
+        for rop in (False, True):
+            n = "macros2_f%d_r%d" % (fmt, rop)
+            if tier == "quick":
+                sig, pre = "a0: bool, a1: bool, b0: bool, b1: bool, u1: int", "0 <= u1 < %d" % U
+                call = "H.check2(a0, a1, b0, b1, 0, u1, %d, True, False, %r)" % (fmt, rop)
+            else:
+                sig, pre = "a0: bool, a1: bool, b0: bool, b1: bool, u0: int, u1: int", "0 <= u0 < %d and 0 <= u1 < %d" % (U, U)
+                call = "H.check2(a0, a1, b0, b1, u0, u1, %d, True, False, %r)" % (fmt, rop)
+            for suffix, body in (("", "    return %s\n" % call), ("__reach", "    %s\n    return False\n" % call)):
+                src.append("def %s%s(%s) -> bool:\n    \"\"\"\n    pre: %s\n    post: _\n    \"\"\"\n%s\n" % (n, suffix, sig, pre, body))
+            specs.append((n, "2 statements, output format %d, return_only_persistent=%s: which inputs / results carry Time_Period components, which macro each statement calls are "
+                             "symbolic (first statement persistent, second not); every vtl_* macro referenced by a statement, by loading a time-typed input or by the output representation was installed before" % (fmt, rop), None))
+    if tier != "quick":
+        for fmt in range(4):
+            n = "macros3_f%d" % fmt
+            sig = "a0: bool, a1: bool, a2: bool, b0: bool, b1: bool, b2: bool, u2: int, rop: bool"
+            pre = "0 <= u2 < %d" % U
+            call = "H.check3(a0, a1, a2, b0, b1, b2, 0, 0, u2, %d, rop)" % fmt
+            for suffix, body in (("", "    return %s\n" % call), ("__reach", "    %s\n    return False\n" % call)):
+                src.append("def %s%s(%s) -> bool:\n    \"\"\"\n    pre: %s\n    post: _\n    \"\"\"\n%s\n" % (n, suffix, sig, pre, body))
+            specs.append((n, "3 statements, output format %d (same symbolic flags)" % fmt, None))
+    path = os.path.join(build, "c32_gen.py")
+    open(path, "w").write("".join(src))
+    runner.decide(rep, "build.ch.c32_gen", path,
+                  [(n, d, (lambda a, n=n: ("C32:macro-not-installed:%s" % n.split("_")[0], "a VTL macro is used on the connection before it is installed (raw CatalogException): %s(%s)" % (n, a))))
+                   for n, d, _ in specs], timeout=100 if tier == "quick" else 400, prefix="crosshair:")
+    rep.functions.append("io/_execution.py: execute_queries, load_scheduled_datasets, cleanup_scheduled_datasets, fetch_result, _contains_time_components; io/_time_handling.apply_time_period_representation; "
+                         "sql/__init__.py: initialize_time_types, _required_macros_sql, _closure, _macro_graph (CrossHair, recording connection)")
+    rep.assumptions.append("stub contract: loading an input with a Time_Period component executes a statement calling vtl_period_normalize; schema probes answer with the declared columns")
 
 
 # ------------------------------------------------------------------------------------------ output representation
